@@ -447,6 +447,11 @@ impl Exec {
                         if reader_gone && m > 0 {
                             return viol("write/accepted-after-reader-drop", format!("poll_write accepted {k} of {m} bytes after the reader was dropped"));
                         }
+                        if reader_gone {
+                            // "After the reader is dropped writes fail", for all request sizes: a write of
+                            // nothing is still a write (it is how a caller probes whether the pipe is alive).
+                            return viol("write/accepted-after-reader-drop/empty-request", "poll_write of an empty buffer returned Ok after the reader was dropped");
+                        }
                         if k > m {
                             return viol("write/count-exceeds-request", format!("poll_write reports {k} bytes written of a {m} byte buffer"));
                         }
